@@ -691,6 +691,43 @@ class Exec:
                 if other_info is not infos[0]:
                     self.fail(f'{sp!r}, another spelling of {name!r}, resolves to {other_info.filename!r}', key='name-forms-disagree')
             self.run.count('folder_spellings_compared')
+        # checksum verification has to be able to fail: one byte of one stored file is flipped in a COPY of the archive files
+        # (found by searching for the file's own bytes), and the copy must report exactly that file as damaged
+        victim = next((n for n in sorted(model) if len(model[n]) >= 48 and len(set(model[n][:48])) > 8
+                       and not any(model[n][8:40] in d for o, d in model.items() if o != n)), None)
+        if victim is not None:
+            total = 0
+            for fn in os.listdir(self.dir):
+                if os.path.isfile(os.path.join(self.dir, fn)):
+                    total += open(os.path.join(self.dir, fn), 'rb').read().count(model[victim][8:40])
+            if total != 1:
+                victim = None   # an older copy of the same bytes is still lying in an archive: the live one cannot be told apart
+        if victim is not None:
+            cdir = tempfile.mkdtemp(prefix='corrupt-', dir=self.dir)
+            try:
+                needle = model[victim][8:40]
+                hit = None
+                for fn in sorted(os.listdir(self.dir)):
+                    src = os.path.join(self.dir, fn)
+                    if not os.path.isfile(src):
+                        continue
+                    raw = open(src, 'rb').read()
+                    k = raw.find(needle)
+                    if k >= 0 and hit is None and raw.count(needle) == 1:
+                        raw = raw[:k + 5] + bytes([raw[k + 5] ^ 0x5A]) + raw[k + 6:]
+                        hit = fn
+                    with open(os.path.join(cdir, fn), 'wb') as f:
+                        f.write(raw)
+                if hit is not None:
+                    damaged = VPK(os.path.join(cdir, os.path.basename(self.path)))
+                    self.run.count('corrupted_copies_verified')
+                    if damaged[victim].verify() or damaged.verify_all():
+                        self.fail(f'one byte of {victim!r} was flipped in {hit}: verify() / verify_all() still report the archive as intact', key='verify-passes-corrupted-data')
+                    others_ok = all(damaged[n].verify() for n in model if n != victim and model[n] != model[victim] and needle not in model[n])
+                    if not others_ok:
+                        self.fail(f'one byte of {victim!r} was flipped: verify() also fails for files that were not touched', key='verify-fails')
+            finally:
+                shutil.rmtree(cdir, ignore_errors=True)
         # read-only rejection on the fresh object
         saved_vpk, saved_mode = self.vpk, self.mode
         self.vpk, self.mode = fresh, 'r'
@@ -840,7 +877,7 @@ def main(run, shard=(0, 1)) -> None:
         shutil.rmtree(base, ignore_errors=True)
     probe.report(run)
     probe.check_reached(run)
-    run.require('files_created_relative_to_root', 'dir_limit_set_as_attribute', 'forged_crc_and_length_writes', 'folder_spellings_compared', 'reopened_for_writing_without_reading', 'operations', 'dirfile_writes', 'file_reads_compared', 'decoder_files_compared', 'name_forms_compared',
+    run.require('files_created_relative_to_root', 'dir_limit_set_as_attribute', 'forged_crc_and_length_writes', 'folder_spellings_compared', 'reopened_for_writing_without_reading', 'corrupted_copies_verified', 'operations', 'dirfile_writes', 'file_reads_compared', 'decoder_files_compared', 'name_forms_compared',
                 'readonly_rejections', 'overwrites', 'deletes', 'writes_crossing_preload_limit', 'writes_over_64k',
                 'open_a', 'open_r', 'open_w')
 
